@@ -22,6 +22,8 @@ def common_labels(spec, obs):
     labs.append("pop:x%.1f" % (spec["config"]["population_size"] / ps))
     if obs.repaired:
         labs.append("config_repaired")
+    if spec.get("warmup") is not None:
+        labs.append("reused_instance")
     if obs.outcome == "exc":
         labs.append("raised:" + obs.exc_key[0])
     return labs
